@@ -24,6 +24,7 @@ ShapesR  == {<<2, 3>>, <<2, 2, 2>>}
 Steps12  == {1, 2}
 Steps123 == {1, 2, 3}
 Steps01  == {0, 1}
+ShapesB  == {<<2, 2>>, <<3, 1>>}
 ShapesZ  == {<<2, 3>>, <<3, 1>>, <<2, 1, 2>>}
 AllWrites == {"set", "apply", "applyslice", "copyfrom", "twoarray"}
 =============================================================================
